@@ -134,6 +134,16 @@ func (g *ExecutionGraph) IsRunning() bool {
 	return false
 }
 
+// isExecuting reports whether the command of any step is running right now.
+func (g *ExecutionGraph) isExecuting() bool {
+	for _, node := range g.Nodes() {
+		if node.isExecuting() {
+			return true
+		}
+	}
+	return false
+}
+
 func (g *ExecutionGraph) FinishAt() time.Time {
 	g.mu.RLock()
 	defer g.mu.RUnlock()
